@@ -16,7 +16,7 @@ def Err.benign : Err → Prop
 theorem benign_of_invalid {e : Err} (h : ∃ k, e = .invalid k) : e.benign := by
   obtain ⟨k, rfl⟩ := h; trivial
 
-theorem evalBin_err_invalid (op : BinOp) (a b : Val) (hexp : intExpV op b) (e : Err) (h : evalBin op a b = .error e) :
+theorem evalBin_err_invalid [StrNorm] (op : BinOp) (a b : Val) (hexp : intExpV op b) (e : Err) (h : evalBin op a b = .error e) :
     ∃ k, e = .invalid k := by
   cases a with
   | sc x =>
@@ -60,7 +60,7 @@ theorem evalBin_err_invalid (op : BinOp) (a b : Val) (hexp : intExpV op b) (e : 
 
 theorem intExp_of_ne_pow (op : BinOp) (h : op ≠ .pow) (b : Scalar) : intExp op b := fun hp => absurd hp h
 
-theorem reduceCmp_err (flip : Bool) (a : Scalar) (l : List Scalar) (e : Err) (h : reduceCmp flip a l = .error e) :
+theorem reduceCmp_err [StrNorm] (flip : Bool) (a : Scalar) (l : List Scalar) (e : Err) (h : reduceCmp flip a l = .error e) :
     ∃ k, e = .invalid k := by
   induction l generalizing a with
   | nil => simp [reduceCmp] at h
@@ -77,7 +77,7 @@ theorem reduceCmp_err (flip : Bool) (a : Scalar) (l : List Scalar) (e : Err) (h 
 theorem map_err {α β} (r : R α) (g : α → β) (e : Err) (h : r.map g = .error e) : r = .error e := by
   cases r <;> simp [Except.map] at h ⊢; exact h
 
-theorem evalAttr_err (v : Val) (n : String) (e : Err) (h : evalAttr v n = .error e) : ∃ k, e = .invalid k := by
+theorem evalAttr_err [StrNorm] (v : Val) (n : String) (e : Err) (h : evalAttr v n = .error e) : ∃ k, e = .invalid k := by
   unfold evalAttr at h
   split at h
   · exact reduceCmp_err _ _ _ _ (map_err _ _ _ h)
@@ -159,7 +159,7 @@ theorem evalLit_err (l : Lit) (hb : litBounded l = true) (e : Err) (h : evalLit 
   | bool b => simp [evalLit] at h
 
 /-- an exponent that is an integer literal, possibly signed, evaluates to an integral rational -/
-theorem intSyntax_value (env : Env) (r : Expr) (hr : intSyntax r = true) (v : Val) (h : eval env r = .ok v) :
+theorem intSyntax_value [StrNorm] (env : Env) (r : Expr) (hr : intSyntax r = true) (v : Val) (h : eval env r = .ok v) :
     ∃ q : Rat, v = .rat q ∧ Rat.isInt' q = true := by
   have lit_case : ∀ t (w : Val), eval env (.lit (.int t)) = .ok w → ∃ n : Nat, w = .rat (n : Nat) := by
     intro t w hw
@@ -195,7 +195,7 @@ theorem intSyntax_value (env : Env) (r : Expr) (hr : intSyntax r = true) (v : Va
 mutual
 /-- Inside the bounds of the property (literals within CPython's conversion limit, escapes within Unicode, exponents
     integral by syntax) evaluation yields a value or a benign error: no hazard, nothing inexact. -/
-theorem eval_bounded (env : Env) : (e : Expr) → e.bounded = true → ∀ x, eval env e = .error x → x.benign
+theorem eval_bounded [StrNorm] (env : Env) : (e : Expr) → e.bounded = true → ∀ x, eval env e = .error x → x.benign
   | .lit l, hb, x, h => by
       simp only [Expr.bounded] at hb
       simp only [eval] at h
@@ -258,7 +258,7 @@ theorem eval_bounded (env : Env) : (e : Expr) → e.bounded = true → ∀ x, ev
         simp only [Except.error.injEq] at h; subst h
         exact eval_bounded env e hb _ he
       · exact benign_of_invalid (evalAttr_err _ _ _ h)
-theorem evalList_bounded (env : Env) : (es : List Expr) → boundedList es = true → ∀ x, evalList env es = .error x → x.benign
+theorem evalList_bounded [StrNorm] (env : Env) : (es : List Expr) → boundedList es = true → ∀ x, evalList env es = .error x → x.benign
   | [], _, x, h => by simp [evalList] at h
   | e :: es, hb, x, h => by
       simp only [boundedList, Bool.and_eq_true] at hb
